@@ -68,6 +68,10 @@ def eval_term(tm, leaf: t.Callable[[tuple], t.Any]):
         return tuple(eval_term(x, leaf) for x in tm[1])
     if tag == "set":
         return frozenset(eval_term(x, leaf) for x in tm[1])
+    if tag == "call" and tm[1] == ("ext", "len") and len(tm[2]) == 1:
+        return len(eval_term(tm[2][0], leaf))
+    if tag == "call" and tm[1] == ("ext", "bool") and len(tm[2]) == 1:
+        return bool(eval_term(tm[2][0], leaf))
     return leaf(tm)
 
 
